@@ -19,6 +19,12 @@ EndUnits == 32
 (* most ~12 roundings per term.                                                *)
 HermiteUnits == 32
 
+(* C04 "changes the computed states only at rounding level" (fixed-step methods, shifted or    *)
+(* reflected twin runs) and C13 "within tolerance otherwise": difference of the final states   *)
+(* in units of eps * max(1, |y|) per accepted step, resp. in units of (atol + rtol |y|).       *)
+TwinRoundingUnitsPerStep == 16
+TwinTolUnits == 100
+
 (* "modest multiple" of a tolerance (C15) and "modest constant" (C05)         *)
 ModestK == 10
 =============================================================================
